@@ -134,6 +134,7 @@ fn case_json(rules: &[Rule], rbc: Option<u8>, layout: Layout, extra: Value) -> V
         "layout": LAYOUTS.iter().position(|l| *l == layout),
         "text": describe_rules(rules, rbc),
         "layout_name": format!("{layout:?}"),
+        "alphabet": REMAP.with(|m| m.get()),
     });
     if let (Some(a), Some(b)) = (v.as_object_mut(), extra.as_object()) {
         for (k, x) in b {
@@ -144,8 +145,34 @@ fn case_json(rules: &[Rule], rbc: Option<u8>, layout: Layout, extra: Value) -> V
 }
 
 /// Check one program (loop verdict) and, if it is loop-free, every word in every mode.
+thread_local! {
+    /// Byte values that stand for the letters a, b, c in the current case (8-bit variants of the families).
+    static REMAP: std::cell::Cell<[u8; 3]> = const { std::cell::Cell::new([b'a', b'b', b'c']) };
+}
+fn remap(c: u8) -> u8 {
+    let m = REMAP.with(|m| m.get());
+    match c {
+        b'a' => m[0],
+        b'b' => m[1],
+        b'c' => m[2],
+        x => x,
+    }
+}
+/// The same program over the alphabet REMAP (next_char, inserted characters, entry points, boundary character).
+fn remap_prog(p: Prog) -> Prog {
+    if REMAP.with(|m| m.get()) == [b'a', b'b', b'c'] {
+        return p;
+    }
+    Prog {
+        words: p.words.iter().map(|w| [w[0], remap(w[1]), w[2], if w[2] < 128 && w[0] <= 128 { remap(w[3]) } else { w[3] }]).collect(),
+        starts: p.starts.iter().map(|(c, s)| (remap(*c), *s)).collect(),
+        lb_start: p.lb_start,
+        rbc: p.rbc.map(remap),
+    }
+}
+
 fn check_program(idx: u64, rules: &[Rule], rbc: Option<u8>, layout: Layout, words: &[Vec<u8>], only: Option<(&[u8], bool, Option<u8>)>, acc: &mut Acc, sh: &Shared, phantom: bool) {
-    let Some(p) = build(rules, rbc, layout) else {
+    let Some(p) = build(rules, rbc, layout).map(remap_prog) else {
         acc.skipped += 1; // a right-boundary rule without a boundary character cannot be written down
         return;
     };
@@ -211,14 +238,19 @@ fn check_program(idx: u64, rules: &[Rule], rbc: Option<u8>, layout: Layout, word
         Some(o) => vec![o],
         None => words.iter().flat_map(|w| MODES.iter().map(move |(lb, ovr)| (w.as_slice(), *lb, *ovr))).collect(),
     };
-    for (w, lb, ovr) in run_list {
+    for (w0, lb, ovr0) in run_list {
+        let wm: Vec<u8> = w0.iter().map(|c| remap(*c)).collect();
+        let (w, ovr) = (wm.as_slice(), ovr0.map(remap));
         acc.eval();
+        if w.iter().any(|c| *c >= 0x80) {
+            acc.count("word_with_8bit_character");
+        }
         let bchar = ovr.or(font.bchar);
         let Some(m) = lk::run(&font, w, lb, bchar, SIM_BUDGET) else {
             sh.machinery.lock().unwrap().push(format!("model run exceeded its budget on a loop-free program [{}] word {:?}", describe_rules(rules, rbc), String::from_utf8_lossy(w)));
             return;
         };
-        let case = || case_json(rules, rbc, layout, json!({"kind": "run", "word": String::from_utf8_lossy(w), "lb": lb, "override": ovr}));
+        let case = || case_json(rules, rbc, layout, json!({"kind": "run", "word": String::from_utf8_lossy(w0), "lb": lb, "override": ovr0, "alphabet": REMAP.with(|m| m.get()), "word_bytes": w}));
         // vacuity counters, from the model's trace only
         if !m.fired.is_empty() {
             acc.nontrivial();
@@ -246,6 +278,12 @@ fn check_program(idx: u64, rules: &[Rule], rbc: Option<u8>, layout: Layout, word
             }
             if m.fired.iter().any(|f| f.k > 255) {
                 acc.count("instruction_beyond_255_fired");
+            }
+            if m.nodes.iter().any(|n| matches!(n, Node::Lig { c, .. } if *c >= 0x80)) {
+                acc.count("ligature_glyph_8bit_emitted");
+            }
+            if m.fired.len() >= 2 && m.nodes.iter().any(|n| matches!(n, Node::Lig { c, .. } | Node::Char(c) if *c >= 0x80)) {
+                acc.count("rule_fired_next_to_8bit_glyph");
             }
             if m.nodes.iter().any(|n| matches!(n, Node::Kern(k) if KERNS[*k] == 0)) {
                 acc.count("zero_kern_emitted");
@@ -545,6 +583,11 @@ fn main() {
         let mut acc = Acc::default();
         let rules: Vec<Rule> = case["rules"].as_array().map(|a| a.iter().map(|r| Rule { left: r[0].as_u64().unwrap() as u8, right: r[1].as_u64().unwrap() as u8, op: r[2].as_u64().unwrap() as u8 }).collect()).unwrap_or_default();
         let rbc = case["rbc"].as_u64().map(|c| c as u8);
+        if let Some(a) = case["alphabet"].as_array() {
+            if a.len() == 3 {
+                REMAP.with(|m| m.set([a[0].as_u64().unwrap_or(97) as u8, a[1].as_u64().unwrap_or(98) as u8, a[2].as_u64().unwrap_or(99) as u8]));
+            }
+        }
         let layout = LAYOUTS[case["layout"].as_u64().unwrap_or(0) as usize];
         let word: Vec<u8> = case["word"].as_str().unwrap_or("").as_bytes().to_vec();
         let only = if case["kind"] == "run" { Some((word.as_slice(), case["lb"].as_bool().unwrap_or(true), case["override"].as_u64().map(|c| c as u8))) } else { None };
@@ -606,6 +649,18 @@ fn main() {
             check_program(i, &rules, rbc_of(d[4]), Layout::Consecutive, w, None, acc, shr, false);
         });
     }
+    // F2c: the <= 2-rule space over 8-bit alphabets
+    {
+        let maps: [[u8; 3]; 2] = [[b'a', 0xE9, 0xC6], [0x7F, 0x80, 0xFF]];
+        let n = space2.len() * 3 * maps.len() as u64;
+        let (sp, w, shr) = (&space2, &words_short, &sh);
+        ctx.family("programs-8bit", "every set of <= 2 rules x boundarychar x 2 alphabets in which a,b,c stand for {a, 0xE9, 0xC6} resp. {0x7F, 0x80, 0xFF} (8-bit letters in the word, 8-bit inserted ligature glyphs, boundary characters 0xC6 / 0x7F / 0xFF / a) x every word of length 1..4 x 3 modes, consecutive layout", n, |i, acc| {
+            let d = vcore::digits(i, &[sp.len(), 3, maps.len() as u64]);
+            REMAP.with(|m| m.set(maps[d[2] as usize]));
+            check_program(i, &sp.rules(d[0]), rbc_of(d[1]), Layout::Consecutive, w, None, acc, shr, false);
+            REMAP.with(|m| m.set([b'a', b'b', b'c']));
+        });
+    }
     // F3: a word with skip byte > 128 inside a chain (TeX §1039 never executes it and stops there;
     //     lang::Operation::EntrypointRedirect documents it as an unconditional stop)
     {
@@ -635,6 +690,9 @@ fn main() {
     ctx.require("ligature_of_a_ligature", "a ligature command fired on a character that was itself inserted by a ligature command");
     ctx.require("left_boundary_rule_fired", "a left boundary rule fired");
     ctx.require("right_boundary_rule_fired", "a rule fired against the right boundary character");
+    ctx.require("word_with_8bit_character", "a word containing a character >= 0x80");
+    ctx.require("ligature_glyph_8bit_emitted", "a ligature glyph >= 0x80 is part of the expected output");
+    ctx.require("rule_fired_next_to_8bit_glyph", "two or more commands fired in a run whose output has an 8-bit glyph");
     ctx.require("zero_kern_emitted", "a kern of amount zero is part of the expected output");
     ctx.require("instruction_beyond_255_fired", "an instruction at an index above 255 fired");
     ctx.finish("one evaluation per compiled program (loop verdict) and per (loop-free program, word, mode) run; non-trivial = the program has a loop, resp. the word triggers at least one lig/kern command in the reference interpreter");
